@@ -41,7 +41,7 @@ Section ExprInd.
   Hypothesis HSeq : forall es, Forall P es -> P (Seq es).
   Hypothesis HLam : forall id ps rest sv body, P body -> P (Lam id ps rest sv body).
   Hypothesis HApp : forall f args, P f -> Forall P args -> P (App f args).
-  Hypothesis HOp : forall o, P (Op o).
+  Hypothesis HOp : forall opc, P (Op opc).
 
   Fixpoint expr_ind2 (e : expr) : P e :=
     match e with
@@ -56,6 +56,6 @@ Section ExprInd.
     | App f args => HApp f args (expr_ind2 f)
                       ((fix go (l : list expr) : Forall P l :=
                           match l with [] => Forall_nil P | x :: r => Forall_cons x (expr_ind2 x) (go r) end) args)
-    | Op o => HOp o
+    | Op opc => HOp opc
     end.
 End ExprInd.
